@@ -117,8 +117,10 @@ def run(ctx, rng):
         scripts.append(dial_fail("dialfail.%d" % k, 2, 2, dgram=(k % 2 == 1)))
     scripts = [s for s in scripts if s["l"] <= 8]  # the trace cfg has 12 callers
     for i in range(300 if T else 40):
+        # (5 callers with queue limit 1 would make trace validation enumerate 5! caller->connection assignments)
+        ncall = rng.choice([2, 3, 4, 4])
         scripts.append({"name": "rnd%d" % i, "q": rng.choice([1, 2, 3]), "l": rng.choice([1, 2, 3, 4]), "dgram": i % 2 == 1,
-                        "steps": [], "random": {"callers": rng.choice([2, 3, 4, 5]), "calls": rng.choice([1, 2]),
+                        "steps": [], "random": {"callers": ncall, "calls": rng.choice([1, 2]) if ncall < 4 else 1,
                                                 "p_dialfail": 0.15, "seed": rng.randrange(1, 2 ** 31)}})
     recs = run_scripts(ctx, scripts)
     rej = validate_report(ctx, recs)
